@@ -5,6 +5,10 @@ Model: lean/Ladybug/Model/Wea.lean (on top of Cal / AP); theorems: lean/Ladybug/
 
 The model, the theorems and the oracle describe wea.py WITH fixes/C12_1..3 applied (leap-year
 reading of .wea files, minute rounding on the sparse path, leap flag in Wea.from_dict).
+
+Round 3: object state machine Model/WeaObj.lean (lemmas Proofs/C12Obj.lean), histories on one Wea / one EPW
+object / one folder and process-order independence: see the section "round 3" below (it lists the consumers of
+every producer).
 """
 import io
 import json
@@ -23,8 +27,9 @@ from harness.core import compare_batch, err_name, run_oracle_cases
 
 PROP = 'C12'
 PROOF_MODULES = ['Ladybug.Props.C12']
-GREP_MODULES = ['Ladybug.Py', 'Ladybug.Model.Cal', 'Ladybug.Model.AP', 'Ladybug.Model.Wea',
-                'Ladybug.Proofs.C12Lemmas', 'Ladybug.Proofs.C12Files', 'Ladybug.Drv.C12', 'Ladybug.DrvCore']
+GREP_MODULES = ['Ladybug.Py', 'Ladybug.Model.Cal', 'Ladybug.Model.AP', 'Ladybug.Model.Wea', 'Ladybug.Model.WeaObj',
+                'Ladybug.Proofs.C12Lemmas', 'Ladybug.Proofs.C12Files', 'Ladybug.Proofs.C12Obj', 'Ladybug.Drv.C12',
+                'Ladybug.DrvCore']
 RULE = ('correspondence: _get_datetimes / public datetimes of annual Weas at boundary + random indices for the '
         '12 timesteps x leap x enforce_on_hour; header numbers of random locations (both longitude signs, '
         'integer/fractional/negative zones); to_file_string lines of whole-day (non-wrapping, wrapping, '
@@ -35,6 +40,18 @@ RULE = ('correspondence: _get_datetimes / public datetimes of annual Weas at bou
         'count_timesteps.  oracle: property statement on the real code (time axis vs stdlib calendar, '
         'file and dict round trips of directly built and of filtered Weas, every filter vs an independent '
         'selection, EPW cells by row, clear-sky / Zhang-Huang alignment, CLI bytes vs library composition). '
+        'Round 3: `hist` = ONE Wea object under a generated history (enforce_on_hour / location / collection setters with '
+        'accepted, immutable-twin and refused candidates - wrong class, shorter, other period, other timestep, other '
+        'collection class, wrong data type -, in-place value edits, operations that fail half-way, a second Wea of the other '
+        'year kind alive in the same process, reads in any order: duplicate, file round trip through ONE re-used path, '
+        'dictionary read twice, .hrs file, derived irradiance at the public sun positions, get_irradiance_value, filters); '
+        'after EVERY step every observable is compared with the state the user established (stdlib oracle) and, in the '
+        'correspondence, with the object state machine of Model/WeaObj.lean step by step; `epw_hist` = one EPW object '
+        '(IP/SI conversions, annual / listed / empty / single-hour / refused exports, from_epw_file in between) against the raw '
+        'file rows; `cli_hist` = several translator calls in ONE folder (two different EPWs, the same EPW edited in place, '
+        'stale side file, refused calls first) against the library calls made elsewhere; `order` = the same pool of cases in '
+        '3-4 fresh Python processes in different orders (rare classes first / reversed / shuffled), a failure is shrunk to '
+        'the case alone or to the order prefix. '
         'non-trivial = the implementation returns a value; distinct = distinct (op, input)')
 TRUSTED_BASE = [
     'modelled, not verified: CPython %-formatting (%.2f/%.3f half-even on the exact binary value, %d truncation), '
@@ -48,6 +65,11 @@ TRUSTED_BASE = [
     'duplicates rejected); the repaired header period of sparse files is not compared',
     'city names are whitespace-free words joined by single blanks (the header parser normalises white space)',
     'click option parsing, CliRunner, Sunpath (C05) and the sky models (C10) are used as given',
+    'object state machine (Model/WeaObj.lean): the Wea object is modelled as public state + the two slots _timestep / '
+    '_is_leap_year; collections are (class, header period, datetimes, values); is_collection_aligned as in '
+    'datacollection.py (continuous: header periods, discontinuous: datetimes only); the EPW object (unit state) and the '
+    'file system state of the CLI translators are NOT modelled in Lean: histories over them are checked by the oracle on '
+    'the real code only; EPW.to_wea is modelled on the (SI) cells of the two columns',
 ]
 ASSUMPTIONS = ['CPython datetime arithmetic is the reference calendar for the oracle',
                'fixes/C12_1_from_file_leap_year.patch, C12_2_sparse_minute_round.patch, '
@@ -393,7 +415,7 @@ def correspondence(ctx):
 
     # --- to_file_string
     cases = []
-    budget = ctx.n(25000, 300000)
+    budget = ctx.n(25000, 200000)
     used = 0
     while used < budget:
         ts = rng.choice([1, 1, 2, 3, 4, 6]) if rng.random() < 0.7 else rng.choice(VALID_TS)
@@ -445,7 +467,7 @@ def correspondence(ctx):
 
     # --- from_file
     cases = []
-    budget = ctx.n(9000, 250000)
+    budget = ctx.n(7500, 170000)
     used = 0
 
     def add_read(ts, leap, lines, tag):
@@ -525,7 +547,7 @@ def correspondence(ctx):
 
     # --- from_dict
     cases = []
-    for _ in range(ctx.n(90, 2500)):
+    for _ in range(ctx.n(90, 1200)):
         ts = rng.choice([1, 1, 2, 3, 4, 6, 60])
         leap = rng.random() < 0.5
         r = rng.random()
@@ -723,6 +745,56 @@ def correspondence(ctx):
                   key=lambda c: (c[0], tuple(repr(h) for h in c[1])))
     cases = [0, 5, 6, 7, 8766]
     compare_batch(ctx, 'count', cases, lambda c: 'count %d' % c, lambda c: 'ok %d' % _count_file(c))
+    # --- EPW.to_wea on the typed cells of an asset EPW (annual, listed hours, single hour, hour outside the year)
+    from ladybug.epw import EPW
+    fn = rng.choice(['chicago.epw', 'long_beach_2021.epw', 'mannheim.epw'])
+    tmp_epw = os.path.join(_tmpdir(), 'corr_' + fn)
+    shutil.copy(_asset('epw', fn), tmp_epw)
+    e0 = EPW(tmp_epw)
+    cells = [list(e0.direct_normal_radiation.values), list(e0.diffuse_horizontal_radiation.values)]
+    if all(float(x).is_integer() for x in cells[0] + cells[1]):
+        n = len(cells[0])
+        # (window offset, window length, listed hours); window 0..n = the whole year
+        cases = [(1400, 50, list(range(1400, 1450))), (0, n, []), (0, 1, [0]), (n - 1, 1, [n - 1]), (3000, 200, [3100, n]),
+                 (4000, 300, sorted(rng.sample(range(4000, 4300), 6)))]
+        if not ctx.quick:
+            cases += [(0, n, sorted(rng.sample(range(n), 40))) for _ in range(20)] + [(0, n, [n + 5]), (0, 10, [5, 4, 3, 3])]
+
+        def head(c):
+            off, k = c[0], c[1]
+            return 'epwwea %s %d %d %s ' % (_b(e0.is_leap_year), off, k, ' '.join(
+                str(int(x)) for x in cells[0][off:off + k] + cells[1][off:off + k]))
+
+        def impl_epwwea(c):
+            out = e0.to_wea(_tmpfile(), list(c[2]))
+            text = open(out).read()
+            os.remove(out)
+            hdr, body, nl = _parse_wea_text(text)
+            if hdr != e0._get_wea_header() or not nl:
+                return 'header-or-newline-wrong'
+            return ('ok %d ' % len(body) + ' '.join('%d %d %d %d %d' % b for b in body)).rstrip()
+
+        compare_batch(ctx, 'epwwea', cases, lambda c: (head(c) + ' '.join(map(str, c[2]))).rstrip(), impl_epwwea, canon=_canon_ws,
+                      key=lambda c: fn + json.dumps(c))
+        ctx.count('epwwea:' + fn)
+    # --- histories on one object: the state machine of Model/WeaObj.lean, step by step
+    cases = []
+    for op, inp in _hist_cases(ctx):
+        cases.append(inp)
+    cases.append(dict(_STALE_TS_CASE))
+    traces = {}
+
+    def line_hist(c):
+        key = json.dumps(c, sort_keys=True)
+        if key not in traces:
+            try:
+                traces[key] = _hist_trace(c)
+            except Exception as e:
+                traces[key] = (traces.get(key, ('hist bad',))[0], 'err:' + err_name(e) + ' ' + str(e)[:80])
+        return traces[key][0]
+
+    compare_batch(ctx, 'hist', cases, line_hist, lambda c: traces[json.dumps(c, sort_keys=True)][1], canon=_canon_ws,
+                  key=lambda c: json.dumps(c, sort_keys=True))
 
 
 def _count_file(n):
@@ -779,9 +851,16 @@ def _make_wea(inp):
     """Build the Wea an oracle case describes, directly from collections."""
     loc = _loc(*inp['loc']) if inp.get('loc') else _loc()
     if inp['kind'] in ('annual', 'partial'):
-        return _build_cont(inp['ts'], inp['leap'], *inp['period'], mode=inp.get('mode', 0),
-                           onhour=inp.get('onhour', False), loc=loc)
-    return _build_disc(inp['ts'], inp['leap'], inp['moys'], inp.get('mode', 0), inp.get('onhour', False), loc=loc)
+        w = _build_cont(inp['ts'], inp['leap'], *inp['period'], mode=inp.get('mode', 0),
+                        onhour=inp.get('onhour', False), loc=loc)
+    else:
+        w = _build_disc(inp['ts'], inp['leap'], inp['moys'], inp.get('mode', 0), inp.get('onhour', False), loc=loc)
+    if inp.get('imm'):                                   # the immutable twins of the two collections
+        from ladybug.wea import Wea
+        w2 = Wea(w.location, w.direct_normal_irradiance.to_immutable(), w.diffuse_horizontal_irradiance.to_immutable())
+        w2.enforce_on_hour = w.enforce_on_hour
+        return w2
+    return w
 
 
 def _moys_of(inp):
@@ -859,10 +938,11 @@ def _apply_filter(w, f, ts, leap):
     return w.filter_by_sun_up(f['min_alt']), want
 
 
-def _check_file_rt(w, ts, leap, sig):
-    """Write `w`, read it back with (ts, leap) and compare location, time steps, values."""
+def _check_file_rt(w, ts, leap, sig, path=None):
+    """Write `w`, read it back with (ts, leap) and compare location, time steps, values.
+    (`path`: write to this path again and again - a reader must not remember an earlier content.)"""
     from ladybug.wea import Wea
-    p = _tmpfile()
+    p = path or _tmpfile()
     try:
         path = w.write(p)
         try:
@@ -926,7 +1006,7 @@ def check_case(op, inp):
         hoys = w.hoys
         if len(dts) != n or len(hoys) != n or not w.is_annual or not w.is_continuous:
             return {'required': n, 'observed': len(dts), 'sig': dict(sig, what='length')}
-        idx = range(n) if n <= 18000 or inp.get('full') else sorted(set(inp['idx']))
+        idx = range(n) if n <= 9000 or inp.get('full') else sorted(set(inp['idx']))
         for i in idx:
             r = _ref(leap, 60 * i // ts + sh)
             d = dts[i]
@@ -1076,6 +1156,14 @@ def check_case(op, inp):
         return None
     if op == 'sky':
         return _check_sky(inp)
+    if op == 'hist':
+        return _check_hist(inp)
+    if op == 'epw_hist':
+        return _check_epw_hist(inp)
+    if op == 'cli_hist':
+        return _check_cli_hist(inp)
+    if op == 'order':
+        return _check_order(inp)
     raise ValueError('unknown op ' + op)
 
 
@@ -1314,6 +1402,1101 @@ def _check_zh(inp, loc):
     return None
 
 
+# ---------------------------------------------------------------------------------------------
+# round 3: histories on ONE object / in ONE folder / in ONE process
+#
+# Producers of wea.py and their consumers (every consumer is exercised by `hist`, `epw_hist`, `cli_hist` or
+# the single-call ops above; a change that keeps a producer and ONE consumer consistent shows in another):
+#   Wea.datetimes (timestep, enforce_on_hour, collection datetimes)
+#       -> hoys, to_file_string, write(+ .hrs), filter_by_sun_up, global_horizontal_irradiance,
+#          direct_horizontal_irradiance, directional_irradiance, estimate_illuminance_components (ghi), duplicate
+#   the pair of collections (setters direct_normal_irradiance / diffuse_horizontal_irradiance, __init__)
+#       -> datetimes, to_file_string, to_dict, filter_by_*, get_irradiance_value(_for_hoy), __iter__/__getitem__/__len__,
+#          analysis_period, is_continuous, is_annual, duplicate, _aligned_collection (derived collections)
+#   location (setter) -> header, to_file_string, to_dict, sun positions of every derived quantity
+#   _timestep / _is_leap_year (filled in __init__) -> datetimes, to_dict, get_irradiance_value, sun path leap flag
+#   Wea._get_datetimes(timestep, leap) -> from_epw_file(ts > 1), clear-sky constructors
+#   Wea.from_epw_file -> epw_to_wea (CLI), wea_to_constant (CLI, EPW input, through the side file epw_to_wea.wea)
+#   EPW.direct_normal_radiation / diffuse_horizontal_radiation (+ unit state is_ip) -> EPW.to_wea, Wea.from_epw_file
+#   Wea.write / to_file_string -> from_file, count_timesteps, to_constant_value, CLI outputs
+
+
+def _loc_header(loc):
+    """The six header lines the .wea format defines for a location [city, lat, lon, zone, elevation]."""
+    city, lat, lon, tz, elev = loc
+    return ('place %s\n' % city + 'latitude %.2f\n' % lat + 'longitude %.2f\n' % -lon
+            + 'time_zone %d\n' % (-tz * 15) + 'site_elevation %.1f\n' % elev + 'weather_data_file_units 1\n')
+
+
+_DEF_LOC = ['Test City', 41.98, -87.92, -6, 201.0]
+
+
+class _St(object):
+    """The public state the user has established on one Wea (no hidden slots: this IS the specification)."""
+
+    def __init__(self, inp):
+        self.ts, self.leap = inp['ts'], inp['leap']
+        self.cont = inp['kind'] in ('annual', 'partial')
+        self.period = list(inp['period']) if self.cont else None
+        self.moys = _moys_of(inp)
+        a, b = _vals(inp.get('mode', 0), len(self.moys))
+        self.v1, self.v2 = list(a), list(b)
+        self.onhour = bool(inp.get('onhour', False))
+        self.loc = list(inp.get('loc') or _DEF_LOC)
+        self.imm = bool(inp.get('imm'))
+
+    def shift(self):
+        return 30 if (self.ts == 1 and not self.onhour) else 0
+
+    def annual(self):
+        return self.cont and len(self.moys) == _hours(self.leap) * self.ts
+
+
+def _new_vals(which, k, n):
+    if which == 'dni':
+        return [float((i * 7 + k) % 1013) + (0.5 if k % 2 else 0.0) for i in range(n)]
+    return [float((i * 3 + k) % 409 + 2000) - (0.25 if k % 3 == 1 else 0.0) for i in range(n)]
+
+
+def _cand(st, which, kind, k):
+    """A collection to assign to wea.<which>: `ok*` kinds are aligned with the other collection, all others are
+    rejected by the setter (wrong class, not aligned, wrong data type)."""
+    from ladybug.analysisperiod import AnalysisPeriod
+    from ladybug.header import Header
+    from ladybug.datacollection import HourlyContinuousCollection, HourlyDiscontinuousCollection, MonthlyCollection
+    from ladybug.datatype.energyflux import DirectNormalIrradiance, DiffuseHorizontalIrradiance
+    ts, leap = st.ts, st.leap
+    n = len(st.moys)
+    dtype = DirectNormalIrradiance if which == 'dni' else DiffuseHorizontalIrradiance
+    if kind == 'dtype':
+        dtype = DiffuseHorizontalIrradiance if which == 'dni' else DirectNormalIrradiance
+    if kind == 'type':
+        return [None, list(range(n)), 'x', 0, MonthlyCollection(
+            Header(dtype(), 'W/m2', AnalysisPeriod()), list(range(12)), list(range(1, 13)))][k % 5]
+    vals = _new_vals(which, k, n)
+    cont = st.cont
+    moys = list(st.moys)
+    period = st.period
+    if kind == 'class':
+        cont = not cont
+        if cont:
+            period = [1, 1, 12, 31]
+            moys = None
+    elif kind == 'short':
+        if cont and len(_period_days(st)) > 1:
+            days = _period_days(st)[:-1]
+            period = list(_md(leap, days[0])) + list(_md(leap, days[-1]))
+        elif cont:
+            ts = 2 if ts != 2 else 4
+        elif n > 1:
+            moys = moys[:-1]
+        else:
+            moys = moys + [(moys[-1] + 60) % (_hours(leap) * 60)]
+            moys = sorted(set(moys))
+    elif kind == 'period':
+        if cont and not st.annual():
+            days = _period_days(st)
+            nd = 366 if leap else 365
+            period = list(_md(leap, (days[0] + 1) % nd)) + list(_md(leap, (days[-1] + 1) % nd))
+        elif cont:
+            period = [1, 1, 12, 30]
+        else:
+            total = _hours(leap) * 60
+            step = 60 // ts
+            m = (moys[-1] + step) % total
+            while m in moys:
+                m = (m + step) % total
+            moys = sorted(moys[:-1] + [m])
+    elif kind == 'hdr_ts' and not cont:
+        ts = 2 if ts == 1 else 2 * ts       # same datetimes under a header of another timestep: ACCEPTED by the code as it is
+    elif kind in ('ts', 'hdr_ts'):
+        ts = [t for t in (1, 2, 3, 4, 6) if t != ts][k % 4]
+        if not cont:
+            moys = moys[:-1] if n > 1 else moys + [(moys[0] + 1440) % (_hours(leap) * 60)]
+    if cont:
+        ap = AnalysisPeriod(period[0], period[1], 0, period[2], period[3], 23, ts, leap)
+        if kind != 'ok' and kind != 'ok_imm' and kind != 'dtype':
+            vals = (vals * (len(ap) // max(1, len(vals)) + 2))[:len(ap)]
+        c = HourlyContinuousCollection(Header(dtype(), 'W/m2', ap, {'k': str(k)}), vals)
+    else:
+        ap = AnalysisPeriod(timestep=ts, is_leap_year=leap)
+        vals = (vals * (len(moys) // max(1, len(vals)) + 2))[:len(moys)]
+        c = HourlyDiscontinuousCollection(Header(dtype(), 'W/m2', ap, {'k': str(k)}), vals,
+                                          [_lb_dt(leap, m) for m in moys])
+    if kind == 'ok_imm':
+        c = c.to_immutable()
+    return c
+
+
+def _period_days(st):
+    a, b = _doy0(st.leap, st.period[0], st.period[1]), _doy0(st.leap, st.period[2], st.period[3])
+    nd = 366 if st.leap else 365
+    return list(range(a, b + 1)) if a <= b else list(range(a, nd)) + list(range(0, b + 1))
+
+
+def _obs_check(w, st):
+    """Every observable C12 speaks about, against the established state.  None | (what, required, observed)."""
+    n = len(st.moys)
+    flags = (len(w), w.timestep, w.is_leap_year, w.is_continuous, w.is_annual, w.enforce_on_hour)
+    want = (n, st.ts, st.leap, st.cont, st.annual(), st.onhour)
+    if flags != want:
+        return 'flags', want, flags
+    al = _check_aligned(w)
+    if al:
+        return 'aligned', 'both collections on the same steps', al
+    cm = [d.moy for d in w.direct_normal_irradiance.datetimes]
+    if cm != st.moys or any(d.leap_year != st.leap for d in w.direct_normal_irradiance.datetimes[:3]):
+        return 'collection steps', 'source steps', _first_diff(st.moys, cm)
+    v1, v2 = list(w.direct_normal_irradiance.values), list(w.diffuse_horizontal_irradiance.values)
+    if v1 != st.v1 or v2 != st.v2:
+        return 'values', 'values of the source at their steps', _first_diff(list(zip(st.v1, st.v2)), list(zip(v1, v2)))
+    sh = st.shift()
+    dts = w.datetimes
+    got = [(d.month, d.day, d.hour, d.minute, bool(d.leap_year)) for d in dts]
+    exp = []
+    for m in st.moys:
+        r = _ref(st.leap, m + sh)
+        exp.append((r.month, r.day, r.hour, r.minute, st.leap))
+    if got != exp:
+        return 'datetimes', 'hourly on the half hour unless on-hour, sub-hourly on its own grid', _first_diff(exp, got)
+    hoys = w.hoys
+    if len(hoys) != n or any(abs(h - (m + sh) / 60.0) > 1e-9 for h, m in zip(hoys, st.moys)):
+        return 'hoys', 'hours of the public datetimes', 'differ'
+    text = w.to_file_string()
+    lines = _lines_of(st.leap, st.ts, st.moys, st.onhour, st.v1, st.v2)
+    body = ''.join('%d %d %d.%03d %d %d\n' % (mo, da, mi // 1000, mi % 1000, x, y) for mo, da, mi, x, y in lines)
+    hdr = _loc_header(st.loc)
+    if w.header.replace(' -0.00\n', ' 0.00\n') != hdr.replace(' -0.00\n', ' 0.00\n'):      # (the sign of a zero is nobody's subject)
+        return 'header', hdr, w.header
+    hdr = w.header
+    if text != hdr + body:
+        return 'text', 'header + one line per step', _first_diff((hdr + body).split('\n'), text.split('\n'))
+    lo = w.location
+    if (lo.city, lo.latitude, lo.longitude, lo.time_zone, lo.elevation) != tuple(st.loc):
+        return 'location', st.loc, str(lo)
+    return None
+
+
+def _sun_alts(st, loc=None):
+    from ladybug.sunpath import Sunpath
+    sp = Sunpath.from_location(_loc(*st.loc))
+    sp.is_leap_year = st.leap
+    sh = st.shift()
+    return [sp.calculate_sun_from_date_time(_lb_dt(st.leap, m + sh)).altitude for m in st.moys]
+
+
+def _read_extra(w, st, what, arg):
+    """Further consumers of the same producers.  None | (what, required, observed)."""
+    import math
+    from ladybug.wea import Wea
+    n = len(st.moys)
+    if what == 'dict':
+        d = json.loads(json.dumps(w.to_dict()))
+        if ('datetimes' in d) == st.annual():
+            return 'to_dict', 'datetimes key iff not annual', sorted(d)
+        if 'datetimes' in d:
+            exp = []
+            for m in st.moys:
+                r = _ref(st.leap, m)
+                exp.append([r.month, r.day, r.hour, r.minute] + ([1] if st.leap else []))
+            got = [[int(x) for x in a] for a in d['datetimes']]
+            if got != exp:
+                return 'to_dict', 'arrays of the collection steps', _first_diff(exp, got)
+        keep = json.dumps(d, sort_keys=True)
+        exp = _expected_rows(st.leap, st.moys, st.v1, st.v2)
+        for again in (0, 1):                               # the same dictionary read twice: the argument is not consumed
+            r = Wea.from_dict(d)
+            rows = _coll_rows(r)
+            if rows != exp or r.timestep != st.ts or r.is_leap_year != st.leap:
+                return 'dict round trip' + (' (second read of one dictionary)' if again else ''), 'same rows', _first_diff(exp, rows)
+            if json.dumps(d, sort_keys=True) != keep:
+                return 'from_dict changes its argument', 'dictionary as passed', 'keys %s' % sorted(d)
+        return None
+    if what == 'dup':
+        d = w.duplicate()
+        res = _obs_check(d, st)
+        if res:
+            return ('duplicate: ' + res[0],) + tuple(res[1:])
+        d.enforce_on_hour = not st.onhour                  # the copy is its own object
+        d.location = _loc('Elsewhere', -10.0, 20.0, 1, 5.0)
+        try:
+            d.direct_normal_irradiance[0] = -777
+        except Exception:
+            pass
+        return None
+    if what == 'file':
+        res = _check_file_rt(w, st.ts, st.leap, {}, os.path.join(_tmpdir(), 'history_%d.wea' % os.getpid()))
+        if res:
+            return 'file round trip: ' + str(res['sig'].get('what')), res['required'], res['observed']
+        return None
+    if what == 'hrs':
+        p = _tmpfile()
+        try:
+            w.write(p, True)
+            got = open(p[:-4] + '.hrs').read()
+        finally:
+            for q in (p, p[:-4] + '.hrs'):
+                if os.path.exists(q):
+                    os.remove(q)
+        hs = [float(x) for x in got.strip().split(',')]
+        sh = st.shift()
+        if len(hs) != n or any(abs(h - (m + sh) / 60.0) > 1e-9 for h, m in zip(hs, st.moys)):
+            return '.hrs file', 'hours of the written steps', got[:80]
+        return None
+    if what == 'ghi':
+        if n > 3000:
+            return None
+        alts = _sun_alts(st)
+        g = w.global_horizontal_irradiance
+        dh = w.direct_horizontal_irradiance
+        tot = w.directional_irradiance()[0]
+        for c in (g, dh, tot):
+            if [d.moy for d in c.datetimes] != st.moys or len(c.values) != n:
+                return 'derived collection', 'on the steps of the Wea', 'differs'
+        for i in range(n):
+            s = math.sin(math.radians(alts[i]))
+            e1 = st.v2[i] + st.v1[i] * s
+            e2 = st.v1[i] * s
+            e3 = st.v2[i] + (st.v1[i] * s if alts[i] > 0 else 0)
+            if abs(g[i] - e1) > 1e-6 or abs(dh[i] - e2) > 1e-6 or abs(tot[i] - e3) > 1e-6 * max(1, abs(e3)):
+                return 'derived irradiance', 'step %d: %r' % (i, (e1, e2, e3)), (g[i], dh[i], tot[i])
+        return None
+    if what == 'get':
+        idx = [i for i in (arg or []) if i < n and st.moys[i] % 60 == 0]
+        for i in idx:
+            if not st.annual() and st.leap:
+                continue                        # DateTime.from_hoy has no leap flag: C08's domain
+            got = w.get_irradiance_value_for_hoy(st.moys[i] / 60.0)
+            r = _ref(st.leap, st.moys[i])
+            got2 = w.get_irradiance_value(r.month, r.day, r.hour)
+            if got != (st.v1[i], st.v2[i]) or got2 != got:
+                return 'get_irradiance_value', (st.v1[i], st.v2[i]), (got, got2)
+        return None
+    if what == 'iter':
+        if list(w) != list(zip(st.v1, st.v2)) or (n and w[n - 1] != (st.v1[-1], st.v2[-1])):
+            return 'iteration', 'pairs of the two collections', 'differ'
+        return None
+    if what == 'filter':
+        f = arg
+        try:
+            r, want = _apply_filter(w, f, st.ts, st.leap)
+        except AssertionError as e:
+            if 'at least one value' in str(e):
+                return None
+            return 'filter ' + f['kind'], 'returns', 'AssertionError ' + str(e)[:80]
+        al = _check_aligned(r)
+        if al:
+            return 'filter aligned', 'aligned', al
+        src = _expected_rows(st.leap, st.moys, st.v1, st.v2)
+        want_rows, got = [src[i] for i in want], _coll_rows(r)
+        if f['kind'] in ('moys', 'hoys', 'hoys_ap'):
+            want_rows, got = sorted(want_rows), sorted(got)
+        d = _first_diff(want_rows, got)
+        if d:
+            return 'filter ' + f['kind'], 'exactly the selected steps', d
+        return None
+    raise ValueError(what)
+
+
+def _check_hist(inp):
+    """One Wea, a history of setters / refused assignments / in-place edits / reads in any order; after EVERY
+    step every observable must be the one of the state the user has established."""
+    from ladybug.wea import Wea
+    st = _St(inp)
+    sig0 = {'ts': _ts_class(st.ts), 'leap': st.leap, 'source': inp['kind']}
+    w = _make_wea(dict(inp, loc=st.loc))
+    others = []
+
+    def fail(step, opname, what, req, obs, refused):
+        sig = dict(sig0, what=what, after=opname[0] if isinstance(opname, list) else opname, refused=refused)
+        if isinstance(opname, list) and opname[0] in ('dni', 'dhi', 'try', 'rd'):
+            sig['arg'] = str(opname[1])
+        return {'required': req, 'observed': 'after step %d %s: %s: %s' % (step, opname, what, obs), 'sig': sig}
+
+    res = _obs_check(w, st)
+    if res:
+        return fail(-1, 'build', res[0], res[1], res[2], False)
+    for k, o in enumerate(inp['ops']):
+        name = o[0]
+        refused = False
+        try:
+            if name == 'oh':
+                w.enforce_on_hour = o[1]
+                st.onhour = bool(o[1])
+            elif name == 'loc':
+                w.location = _loc(*o[1])
+                st.loc = list(o[1])
+            elif name == 'loc_bad':
+                refused = True
+                try:
+                    w.location = [None, 'Chicago', {'city': 'x'}, 0][o[1] % 4]
+                except AssertionError:
+                    pass
+            elif name in ('dni', 'dhi'):
+                kind, kk = o[1], o[2]
+                c = _cand(st, name, kind, kk)
+                accept = kind in ('ok', 'ok_imm')
+                refused = not accept
+                try:
+                    if name == 'dni':
+                        w.direct_normal_irradiance = c
+                    else:
+                        w.diffuse_horizontal_irradiance = c
+                    took = True
+                except (AssertionError, AttributeError, TypeError):
+                    took = False
+                if took and kind == 'hdr_ts' and name == 'dni' and not st.cont:
+                    # accepted (discontinuous alignment compares datetimes only): the Wea of these two collections
+                    # has the timestep of the new direct-normal header
+                    st.ts = c.header.analysis_period.timestep
+                    st.v1 = list(c.values)
+                    refused = False
+                elif took and (accept or kind == 'dtype'):       # (the data type is not C12's subject)
+                    if name == 'dni':
+                        st.v1 = list(c.values)
+                    else:
+                        st.v2 = list(c.values)
+                elif accept:
+                    return fail(k, o, 'aligned assignment rejected', 'accepted', 'raises', False)
+            elif name == 'setval':
+                i = o[1] % len(st.moys)
+                try:                                   # two user-level edits; an immutable twin refuses its own
+                    w.direct_normal_irradiance[i] = o[2]
+                    st.v1[i] = o[2]
+                except (TypeError, AttributeError):
+                    refused = True
+                try:
+                    w.diffuse_horizontal_irradiance[i] = o[3]
+                    st.v2[i] = o[3]
+                except (TypeError, AttributeError):
+                    refused = True
+            elif name == 'try':                          # operations that are refused or fail half-way
+                refused = True
+                import contextlib
+                try:
+                  with contextlib.redirect_stdout(io.StringIO()):
+                      if o[1] == 'write':
+                          blocker = _tmpfile('.blk')
+                          open(blocker, 'w').close()
+                          w.write(os.path.join(blocker, 'x.wea'), bool(o[2] % 2))
+                      elif o[1] == 'get':
+                          w.get_irradiance_value_for_hoy([99999, -1, 8760.5][o[2] % 3])
+                      elif o[1] == 'get2':
+                          w.get_irradiance_value(2, 30, 0)
+                      elif o[1] == 'pattern':
+                          w.filter_by_pattern([[], [False], None][o[2] % 3])
+                      elif o[1] == 'period':
+                          from ladybug.analysisperiod import AnalysisPeriod
+                          w.filter_by_analysis_period(AnalysisPeriod(1, 1, 0, 12, 31, 23, 5 if st.ts != 5 else 4, st.leap))
+                      elif o[1] == 'moys':
+                          w.filter_by_moys([10 ** 9, -5])
+                      elif o[1] == 'hoys':
+                          w.filter_by_hoys(['x'])
+                      elif o[1] == 'illum':
+                          w.estimate_illuminance_components(w.direct_normal_irradiance.filter_by_pattern([True, False]))
+                      elif o[1] == 'from_dict':
+                          d = w.to_dict()
+                          d['direct_normal_irradiance'] = list(d['direct_normal_irradiance'])[:-1]
+                          Wea.from_dict(d)
+                except Exception:
+                    pass
+            elif name == 'other':                        # another Wea of another year kind / timestep in the same process
+                st2 = _St(o[1])
+                w2 = _make_wea(dict(o[1], loc=st2.loc))
+                others.append((w2, st2))
+                r2 = _obs_check(w2, st2)
+                if r2:
+                    return fail(k, o, 'second object: ' + r2[0], r2[1], r2[2], False)
+            elif name == 'rd':
+                r2 = _read_extra(w, st, o[1], o[2] if len(o) > 2 else None)
+                if r2:
+                    return fail(k, o, r2[0], r2[1], r2[2], False)
+            else:
+                raise ValueError('unknown history op %r' % (o,))
+        except Exception as e:
+            if isinstance(e, ValueError) and 'unknown history op' in str(e):
+                raise
+            return fail(k, o, 'operation raises ' + type(e).__name__, 'operation succeeds', str(e)[:120].replace('\n', ' '), refused)
+        try:
+            res = _obs_check(w, st)
+        except Exception as e:
+            return fail(k, o, 'observation raises ' + type(e).__name__, 'observables readable', str(e)[:120].replace('\n', ' '), refused)
+        if res:
+            return fail(k, o, res[0], res[1], res[2], refused)
+    for w2, st2 in others:                               # the other objects are still what they were
+        res = _obs_check(w2, st2)
+        if res:
+            return fail(len(inp['ops']), 'end', 'second object: ' + res[0], res[1], res[2], False)
+    return None
+
+
+# known finding C12-setter-stale-timestep (theorem C12_history_stale_timestep_counterexample)
+_STALE_TS_CASE = {'kind': 'sparse', 'ts': 1, 'leap': False, 'moys': [85440 + 480, 85440 + 540], 'mode': 0,
+                  'ops': [['dni', 'hdr_ts', 2], ['rd', 'file']]}
+
+
+def _rand_hist_ops(rng, inp, nops):
+    st = _St(inp)
+    n = len(st.moys)
+    small = n <= 600
+    ops = []
+    locs = [['Sydney Obs', -33.87, 151.21, 10, 39.0], ['Nairobi', -1.32, 36.92, 3, 1624.0], ['Zero', 0.0, 0.0, 0, 0.0],
+            ['Reykjavik', 64.13, -21.9, 0, 61.0], ['Suva', -18.13, 178.43, 12, 6.0]]
+    bad_kinds = ['short', 'period', 'ts', 'class', 'type', 'dtype']
+    for _ in range(nops):
+        r = rng.random()
+        if r < 0.2:
+            ops.append(['oh', rng.choice([True, False, False, 1, 0])])
+        elif r < 0.27:
+            ops.append(['loc', rng.choice(locs)])
+        elif r < 0.31:
+            ops.append(['loc_bad', rng.randrange(4)])
+        elif r < 0.41:
+            ops.append([rng.choice(['dni', 'dhi']), rng.choice(['ok', 'ok', 'ok_imm']), rng.randrange(1000)])
+        elif r < 0.56:
+            ops.append([rng.choice(['dni', 'dhi']), rng.choice(bad_kinds), rng.randrange(1000)])
+        elif r < 0.61:
+            ops.append(['setval', rng.randrange(10 ** 6), rng.choice([0, 0.0, 999.5, -3.5, 1]), rng.choice([0, 12.75, 400])])
+        elif r < 0.73:
+            ops.append(['try', rng.choice(['write', 'get', 'get2', 'pattern', 'period', 'moys', 'hoys', 'illum', 'from_dict']),
+                        rng.randrange(6)])
+        elif r < 0.77 and small:
+            ts2 = rng.choice([t for t in (1, 2, 3, 4) if t != st.ts])
+            leap2 = not st.leap
+            ops.append(['other', {'kind': 'sparse', 'ts': ts2, 'leap': leap2, 'moys': _rand_sparse(rng, ts2, leap2, 5), 'mode': 1,
+                                  'onhour': rng.random() < 0.3}])
+        else:
+            what = rng.choice(['dict', 'dup', 'file', 'hrs', 'ghi', 'get', 'iter', 'filter'] if small else ['dup', 'iter', 'get', 'hrs'])
+            if what == 'get':
+                ops.append(['rd', 'get', [rng.randrange(n) for _ in range(4)] + [0, n - 1]])
+            elif what == 'filter':
+                f = _rand_filter(rng, st.ts, st.leap, st.moys, st.annual(), not st.cont)
+                if f['kind'] == 'moys' and st.cont:
+                    f['moys'] = [m for m in f['moys'] if m in set(st.moys)] or [st.moys[0]]
+                if f['kind'] == 'period' and not st.annual():
+                    f['args'][0:2] = st.period[0:2] if st.cont else [1, 1]
+                    f['args'][3:5] = st.period[2:4] if st.cont else [12, 31]
+                ops.append(['rd', 'filter', f])
+            else:
+                ops.append(['rd', what])
+    return ops
+
+
+def _hist_cases(ctx):
+    rng = ctx.rng
+    # fixed histories: the orders that expose a slot which a setter / a refused assignment does not keep in step
+    base3 = {'kind': 'partial', 'ts': 3, 'leap': False, 'period': [6, 21, 6, 22], 'mode': 0}
+    base1 = {'kind': 'partial', 'ts': 1, 'leap': True, 'period': [2, 28, 3, 1], 'mode': 1}
+    sparse = {'kind': 'sparse', 'ts': 2, 'leap': False, 'moys': [0, 30, 90, 86400, 525570], 'mode': 0}
+    yield 'hist', dict(base3, ops=[['oh', True], ['oh', False], ['rd', 'dup'], ['rd', 'file'], ['oh', 0]])
+    yield 'hist', dict(base1, ops=[['oh', True], ['rd', 'ghi'], ['oh', False], ['rd', 'ghi'], ['rd', 'hrs'], ['oh', 1], ['rd', 'dup'],
+                                   ['rd', 'file']])
+    yield 'hist', dict(base1, ops=[['dni', 'short', 1], ['dhi', 'short', 2], ['dni', 'period', 3], ['dhi', 'ts', 4], ['dni', 'class', 5],
+                                   ['dhi', 'type', 1], ['dni', 'dtype', 6], ['rd', 'file'], ['dni', 'ok', 7], ['dhi', 'ok_imm', 8],
+                                   ['rd', 'dict'], ['loc_bad', 1], ['loc', ['Zero', 0.0, 0.0, 0, 0.0]], ['rd', 'file']])
+    yield 'hist', dict(sparse, ops=[['dhi', 'short', 1], ['dni', 'period', 2], ['dhi', 'class', 3], ['try', 'write', 1], ['try', 'get', 0],
+                                    ['rd', 'filter', {'kind': 'pattern', 'pattern': [True, False]}], ['dni', 'ok', 4], ['rd', 'file'],
+                                    ['setval', 0, 0, 0], ['rd', 'dict']])
+    yield 'hist', {'kind': 'annual', 'ts': 2, 'leap': True, 'period': [1, 1, 12, 31], 'mode': 0,
+                   'ops': [['oh', False], ['dni', 'short', 1], ['rd', 'get', [0, 1, 2832, 17567]], ['oh', True], ['dhi', 'ok', 3]]}
+    for i in range(ctx.n(20, 220) * (3 if ctx.searching else 1)):
+        ts = rng.choice([1, 1, 2, 3, 4, 6]) if rng.random() < 0.75 else rng.choice(VALID_TS)
+        leap = rng.random() < 0.5
+        r = rng.random()
+        if r < 0.08 and ts <= 2:
+            inp = {'kind': 'annual', 'ts': ts, 'leap': leap, 'period': [1, 1, 12, 31]}
+            nops = 4
+        elif r < 0.6:
+            stm, std, endm, endd, kind = _rand_period(rng, leap)
+            if len(_period_moys(ts, leap, stm, std, endm, endd)) > 1200:
+                continue
+            inp = {'kind': 'partial', 'ts': ts, 'leap': leap, 'period': [stm, std, endm, endd]}
+            nops = rng.choice([4, 8, 12])
+            ctx.count('hist:period_' + kind)
+        else:
+            inp = {'kind': 'sparse', 'ts': ts, 'leap': leap, 'moys': _rand_sparse(rng, ts, leap)}
+            nops = rng.choice([4, 8, 12])
+            if len(inp['moys']) == 1:
+                ctx.count('hist:single_step')
+        inp.update(mode=rng.choice([0, 1]), onhour=rng.random() < 0.25)
+        if rng.random() < 0.2:
+            inp['imm'] = True
+            ctx.count('hist:immutable_twin')
+        if rng.random() < 0.3:
+            inp['loc'] = rng.choice([['Sydney Obs', -33.87, 151.21, 10, 39.0], ['Zero', 0.0, 0.0, 0, 0.0], ['Quito', -0.18, -78.47, -5, 2850.0]])
+        inp['ops'] = _rand_hist_ops(rng, inp, nops)
+        for o in inp['ops']:
+            ctx.count('hist:op_' + o[0] + ('_' + str(o[1]) if o[0] in ('dni', 'dhi', 'try', 'rd') else ''))
+        ctx.count('hist:%s_%s_%s' % (inp['kind'], _ts_class(ts), 'leap' if leap else 'plain'))
+        yield 'hist', inp
+
+
+
+# --- correspondence of histories: the object state machine of Model/WeaObj.lean vs one real object ---------------
+
+
+def _hdr_numbers(text):
+    ls = text.split('\n')
+    return (int(Decimal(ls[1].split()[-1]) * 100), int(Decimal(ls[2].split()[-1]) * 100),
+            int(ls[3].split()[-1]), int(Decimal(ls[4].split()[-1]) * 10))
+
+
+def _hist_idx(n):
+    return sorted(set(i for i in (0, 1, 2, n // 3, n // 2, n - 2, n - 1) if 0 <= i < n))
+
+
+def _digest(status, w, idx):
+    n = len(w.direct_normal_irradiance.values)
+    try:
+        dts = w.datetimes
+        dpart = ' '.join(_show_dt(dts[i]) if i < len(dts) else 'err:index' for i in idx)
+    except Exception as e:
+        dpart = 'err:' + err_name(e)
+    try:
+        body = w.to_file_string()[len(w.header):].split('\n')
+        toks = []
+        for i in idx:
+            t = body[i].split(' ')
+            toks.append('%d %d %d %d %d' % (int(t[0]), int(t[1]), int(Decimal(t[2]) * 1000), int(t[3]), int(t[4])))
+        lpart = ' '.join(toks)
+    except Exception as e:
+        lpart = 'err:' + err_name(e)
+    al = tuple(w.diffuse_horizontal_irradiance.datetimes) == tuple(w.direct_normal_irradiance.datetimes)
+    return '%s %d %d %s %s %s %d %d %d %d D %s L %s A %s' % (
+        (status, n, w.timestep, _b(w.is_leap_year), _b(w.is_continuous), _b(w.enforce_on_hour)) + _hdr_numbers(w.header)
+        + (dpart, lpart, _b(al)))
+
+
+def _src_tokens(c):
+    """`c ts leap stM stD endM endD` | `d ts leap m moy…` of a real collection."""
+    ap = c.header.analysis_period
+    if c._collection_type == 'HourlyContinuous':
+        return 'c %d %s %d %d %d %d' % (ap.timestep, _b(ap.is_leap_year), ap.st_month, ap.st_day, ap.end_month, ap.end_day)
+    moys = [d.moy for d in c.datetimes]
+    return ('d %d %s %d %s' % (ap.timestep, _b(ap.is_leap_year), len(moys), ' '.join(map(str, moys)))).rstrip()
+
+
+def _hist_trace(inp):
+    """Run the history on one real Wea; -> (model request line, response in the model's format)."""
+    from ladybug.wea import Wea
+    from ladybug.datacollection import HourlyContinuousCollection, HourlyDiscontinuousCollection
+    st = _St(inp)
+    w = _make_wea(dict(inp, loc=st.loc))
+    idx = _hist_idx(len(st.moys))
+    req = ['hist %d %s %s' % (inp.get('mode', 0), _b(st.onhour), ' '.join(_fbits(x) for x in st.loc[1:])),
+           _src_tokens(w.direct_normal_irradiance), 'I', ' '.join(map(str, idx)), 'O']
+    out = [_digest('built', w, idx)]
+    for o in inp['ops']:
+        name = o[0]
+        status = 'obs'
+        if name == 'oh':
+            w.enforce_on_hour = o[1]
+            req.append('oh %s' % _b(bool(o[1])))
+            status = 'done'
+        elif name == 'loc':
+            w.location = _loc(*o[1])
+            req.append('loc ' + ' '.join(_fbits(x) for x in o[1][1:]))
+            status = 'done'
+        elif name == 'loc_bad':
+            req.append('locbad')
+            try:
+                w.location = [None, 'Chicago', {'city': 'x'}, 0][o[1] % 4]
+                status = 'done'
+            except AssertionError:
+                status = 'refused'
+        elif name in ('dni', 'dhi'):
+            # the candidate is described from the state the history has reached so far (as `_check_hist` builds it)
+            st.moys = [d.moy for d in w.direct_normal_irradiance.datetimes]
+            c = _cand(st, name, o[1], o[2])
+            iscoll = isinstance(c, (HourlyContinuousCollection, HourlyDiscontinuousCollection))
+            if iscoll:
+                req.append('%s 1 %s %d %d %s' % (name, _b(o[1] != 'dtype'), o[2], len(c.values), _src_tokens(c)))
+            else:
+                req.append('%s 0 1 %d 0 c 1 0 1 1 1 1' % (name, o[2]))
+            try:
+                if name == 'dni':
+                    w.direct_normal_irradiance = c
+                else:
+                    w.diffuse_horizontal_irradiance = c
+                status = 'done'
+            except (AssertionError, AttributeError, TypeError):
+                status = 'refused'
+        elif name == 'setval':
+            i = o[1] % len(st.moys)
+            a, b = w.direct_normal_irradiance[i], w.diffuse_horizontal_irradiance[i]
+            took = 0
+            try:                                   # two user-level edits; an immutable twin refuses its own
+                w.direct_normal_irradiance[i] = o[2]
+                a = o[2]
+                took += 1
+            except (TypeError, AttributeError):
+                pass
+            try:
+                w.diffuse_horizontal_irradiance[i] = o[3]
+                b = o[3]
+                took += 1
+            except (TypeError, AttributeError):
+                pass
+            if took:
+                req.append('setval %d %s %s' % (i, Fraction(a), Fraction(b)))
+                status = 'done'
+            else:
+                req.append('rd')
+        else:
+            req.append('rd')
+        out.append(_digest(status, w, idx))
+    return ' '.join(req), 'ok ' + ' | '.join(out)
+
+
+# --- EPW object histories: unit state, refused exports, repeated exports ---------------------------------
+
+
+def _epw_expected(loc, rows, hoys, c1, c2):
+    hdr = _loc_header([loc[1], float(loc[6]), float(loc[7]), float(loc[8]), float(loc[9])])
+    body = [(rows[h][0], rows[h][1], (rows[h][2] - 1) * 1000 + 500, c1[h], c2[h]) for h in hoys]
+    return hdr, body
+
+
+def _parse_wea_text(text):
+    ls = text.split('\n')
+    hdr = '\n'.join(ls[:6]) + '\n'
+    body = []
+    for ln in ls[6:]:
+        if ln == '':
+            continue
+        t = ln.split(' ')
+        body.append((int(t[0]), int(t[1]), int(Decimal(t[2]) * 1000), int(t[3]), int(t[4])))
+    return hdr, body, ls[-1] == ''
+
+
+def _cmp_wea_text(text, hdr, body, tol):
+    ghdr, gbody, nl = _parse_wea_text(text)
+    if ghdr != hdr:
+        return 'header', _first_diff(hdr.split('\n'), ghdr.split('\n'))
+    if len(gbody) != len(body) or not nl:
+        return 'line count', 'lengths %d vs %d' % (len(body), len(gbody))
+    for i, (a, b) in enumerate(zip(body, gbody)):
+        if a[:3] != b[:3]:
+            return 'time columns', 'line %d: required %s observed %s' % (i, a, b)
+        if abs(a[3] - b[3]) > tol or abs(a[4] - b[4]) > tol:
+            return 'irradiance', 'line %d: required %s observed %s' % (i, a, b)
+    return None
+
+
+def _check_epw_hist(inp):
+    """One EPW object: unit conversions, exports (annual / listed hours / refused), reads of the columns, in any
+    order; every export must carry the W/m2 irradiance of the file rows at the right steps."""
+    from ladybug.epw import EPW
+    from ladybug.wea import Wea
+    src = _asset('epw', inp['file'])
+    path = os.path.join(_tmpdir(), 'h_%d_%s' % (_CNT[0], inp['file']))
+    _CNT[0] += 1
+    shutil.copy(src, path)
+    loc, rows = _epw_rows(path)
+    n = len(rows)
+    sig0 = {'what': 'epw history', 'file': inp['file']}
+    e = EPW(path)
+    c1 = [r[3] for r in rows]
+    c2 = [r[4] for r in rows]
+    converted = False
+    is_ip = False
+    # cells that are whole numbers are written as they are; other cells are rounded on import (C01) and truncated by %d
+    tol0 = 0 if all(float(x).is_integer() for x in c1 + c2) else 1
+    try:
+        for k, o in enumerate(inp['ops']):
+            name = o[0]
+            if name == 'ip':
+                e.convert_to_ip()
+                converted = is_ip = True
+            elif name == 'si':
+                e.convert_to_si()
+                is_ip = False
+            elif name == 'cols':
+                e.direct_normal_radiation.values[0], e.diffuse_horizontal_radiation.datetimes[0]
+            elif name in ('to_wea', 'to_wea_bad'):
+                hoys = o[1]
+                out = _tmpfile('' if (len(o) > 2 and o[2]) else '.wea')
+                try:
+                    p = e.to_wea(out, hoys)
+                    raised = None
+                except Exception as ex:
+                    raised = ex
+                    p = None
+                if name == 'to_wea_bad':
+                    if raised is None and p and os.path.exists(p):
+                        os.remove(p)
+                else:
+                    if raised is not None:
+                        return {'required': 'export succeeds', 'observed': 'step %d %s raises %s: %s' % (k, o, type(raised).__name__, raised),
+                                'sig': dict(sig0, what='to_wea raises', ip=is_ip)}
+                    text = open(p).read()
+                    os.remove(p)
+                    if not p.endswith('.wea'):
+                        return {'required': '.wea path', 'observed': p, 'sig': dict(sig0, what='path')}
+                    hdr, body = _epw_expected(loc, rows, hoys or range(n), c1, c2)
+                    d = _cmp_wea_text(text, hdr, body, tol0 + (1 if converted else 0))
+                    if d:
+                        return {'required': 'rows of the EPW in W/m2 at hour - 0.5', 'observed': 'step %d %s: %s: %s' % (k, o, d[0], d[1]),
+                                'sig': dict(sig0, what='to_wea ' + d[0], ip=is_ip)}
+                if e.is_ip != is_ip:
+                    return {'required': 'unit system kept (ip=%s)' % is_ip, 'observed': 'is_ip=%s after step %d %s' % (e.is_ip, k, o),
+                            'sig': dict(sig0, what='unit state', ip=is_ip)}
+            elif name == 'from_epw':
+                w = Wea.from_epw_file(path)
+                hdr, body = _epw_expected(loc, rows, range(n), c1, c2)
+                d = _cmp_wea_text(w.to_file_string(), hdr, body, tol0)
+                if d:
+                    return {'required': 'rows of the EPW', 'observed': 'step %d from_epw_file: %s: %s' % (k, d[0], d[1]),
+                            'sig': dict(sig0, what='from_epw_file ' + d[0])}
+            else:
+                raise ValueError('unknown epw history op %r' % (o,))
+    finally:
+        if os.path.exists(path):
+            os.remove(path)
+    return None
+
+
+def _epw_hist_cases(ctx):
+    rng = ctx.rng
+    files = ['chicago.epw', 'tokyo.epw', 'mannheim.epw']
+    some = sorted(rng.sample(range(8760), 6))
+    noon = [h for h in range(4000, 4024)]
+    yield 'epw_hist', {'file': rng.choice(files), 'ops': [['ip'], ['to_wea', None], ['to_wea', noon], ['to_wea_bad', [5, 10 ** 6]],
+                                                            ['to_wea', some, 1], ['si'], ['to_wea', [0]], ['from_epw']]}
+    for _ in range(ctx.n(1, 8)):
+        ops = []
+        for _ in range(rng.choice([3, 5, 7])):
+            r = rng.random()
+            if r < 0.2:
+                ops.append(['ip'])
+            elif r < 0.3:
+                ops.append(['si'])
+            elif r < 0.4:
+                ops.append(['cols'])
+            elif r < 0.55:
+                ops.append(['to_wea_bad', rng.choice([[3, 8760], [-9000], [0, 'x'], [10 ** 6]])])
+            elif r < 0.65:
+                ops.append(['from_epw'])
+            else:
+                hoys = rng.choice([None, [], [0], [8759], sorted(rng.sample(range(8760), 5)), list(range(3000, 3030))])
+                ops.append(['to_wea', hoys, rng.randrange(2)])
+        for o in ops:
+            ctx.count('epw_hist:op_' + o[0])
+        yield 'epw_hist', {'file': rng.choice(files), 'ops': ops}
+
+
+# --- histories in one folder (the CLI translators leave files next to their input) --------------------------
+
+
+def _edit_epw(path, k):
+    """Edit an EPW copy in place: another place / position in the LOCATION line and other irradiance cells."""
+    with open(path, errors='ignore') as f:
+        lines = f.read().split('\n')
+    t = lines[0].split(',')
+    t[1] = 'Edited%d' % k
+    t[6] = '%.2f' % (-33.0 + k % 7)
+    t[7] = '%.2f' % (18.0 + k % 5)
+    t[8] = '%.1f' % (2.0)
+    t[9] = '%.1f' % (40.0 + k % 3)
+    lines[0] = ','.join(t)
+    for i in range(8, len(lines)):
+        c = lines[i].split(',')
+        if len(c) > 15 and (i + k) % 11 == 0:
+            c[14] = str((int(float(c[14])) + 17 + k) % 1000)
+            c[15] = str((int(float(c[15])) + 5 + k) % 500)
+            lines[i] = ','.join(c)
+    with open(path, 'w') as f:
+        f.write('\n'.join(lines))
+
+
+def _check_cli_hist(inp):
+    """Several translator calls in ONE folder (different inputs, edited inputs, refused calls, files left behind by
+    earlier calls): each output equals the library calls made on a private copy elsewhere."""
+    from click.testing import CliRunner
+    from ladybug.cli.translate import translate, epw_to_wea, wea_to_constant
+    from ladybug.wea import Wea
+    from ladybug.analysisperiod import AnalysisPeriod
+    work = tempfile.mkdtemp(prefix='c12_cli_')
+    lib = tempfile.mkdtemp(prefix='c12_lib_')
+    sig0 = {'what': 'cli history'}
+    try:
+        for k, s in enumerate(inp['steps']):
+            sig = dict(sig0, cmd=s['cmd'], via=s['via'], step='first' if k == 0 else 'later')
+            target = os.path.join(work, s['file'])
+            if not os.path.exists(target) and not s.get('missing'):
+                shutil.copy(_asset(s['assets'], s.get('src') or s['file']), target)
+            if s.get('edit') is not None:
+                _edit_epw(target, s['edit'])
+            if s.get('stale'):                      # a file an earlier run (any program) left in the folder
+                with open(os.path.join(work, 'epw_to_wea.wea'), 'w') as f:
+                    f.write(_loc_header(['Stale Place', 1.0, 2.0, 3, 4.0]) + '1 1 0.500 1 1\n1 1 1.500 2 2\n')
+            if s.get('truncate'):                   # an input the translator must refuse
+                with open(target, errors='ignore') as f:
+                    txt = f.read().split('\n')
+                with open(target, 'w') as f:
+                    f.write('\n'.join(txt[:8 + 100]) + '\n')
+            outp = os.path.join(work, 'out_%d.txt' % k) if s['out'] in ('file', 'path') else None
+            # the library calls, in another folder, on a copy of what the input is NOW
+            want = None
+            if not s.get('missing') and not s.get('truncate'):
+                priv = os.path.join(lib, 'in_%d_%s' % (k, s['file']))
+                shutil.copy(target, priv)
+                if s['cmd'] == 'epw-to-wea':
+                    lw = Wea.from_epw_file(priv, s.get('ts') or 1)
+                    if s.get('ap') not in (None, '', 'None'):
+                        lw = lw.filter_by_analysis_period(AnalysisPeriod.from_string(s['ap']))
+                    want = lw.to_file_string()
+                else:
+                    v = 1000 if s.get('value') is None else s['value']
+                    if s['assets'] == 'wea':
+                        want = Wea.to_constant_value(priv, v)
+                    else:
+                        p2 = Wea.from_epw_file(priv).write(os.path.join(lib, 'lib_%d.wea' % k))
+                        want = Wea.to_constant_value(p2, v)
+                        # and against the rows of the file itself: place line and one line per row
+                        loc, rows = _epw_rows(priv)
+                        if want.split('\n')[0] != 'place ' + loc[1] or len(want.split('\n')) != len(rows) + 7:
+                            return {'required': 'place %s, %d lines' % (loc[1], len(rows)), 'observed': want[:60],
+                                    'sig': dict(sig, what='library composition')}
+            import logging
+            logging.disable(logging.CRITICAL)
+            try:
+                if s['via'] == 'cli':
+                    args = [s['cmd'], target]
+                    if s['cmd'] == 'epw-to-wea':
+                        if s.get('ap') is not None:
+                            args += ['--analysis-period', s['ap']]
+                        if s.get('ts') is not None:
+                            args += ['--timestep', str(s['ts'])]
+                    elif s.get('value') is not None:
+                        args += ['--value', str(s['value'])]
+                    if outp:
+                        args += ['--output-file', outp]
+                    res = CliRunner().invoke(translate, args)
+                    ok = res.exit_code == 0
+                    got = (open(outp).read() if outp and os.path.exists(outp) else res.output) if ok else None
+                else:
+                    if s['cmd'] == 'epw-to-wea':
+                        got = epw_to_wea(target, s.get('ap'), s.get('ts') or 1, outp)
+                    else:
+                        got = wea_to_constant(target, 1000 if s.get('value') is None else s['value'], outp)
+                    if outp:
+                        got = open(outp).read()
+                    ok = True
+                    if not ok and res.exception is not None and not isinstance(res.exception, SystemExit):
+                        raise res.exception
+            except Exception as e:
+                ok, got = False, None
+                err = '%s: %s' % (type(e).__name__, str(e)[:100])
+                sig['error'] = type(e).__name__
+            else:
+                err = 'exit code 1'
+            finally:
+                logging.disable(logging.NOTSET)
+            if want is None:
+                continue                               # a refused call: only what follows matters
+            if not ok:
+                return {'required': 'call %d succeeds' % k, 'observed': err, 'sig': dict(sig, what='call fails')}
+            if got != want:
+                if s['via'] == 'cli' and not outp and got == _NOTE + want:
+                    continue                           # known finding C12-cli-stdout-note (reported by the `cli` op)
+                return {'required': 'call %d (%s %s) gives the bytes of the library calls' % (k, s['cmd'], s['file']),
+                        'observed': _first_diff(want.split('\n'), (got or '').split('\n')), 'sig': dict(sig, what='cli bytes')}
+    finally:
+        shutil.rmtree(work, ignore_errors=True)
+        shutil.rmtree(lib, ignore_errors=True)
+    return None
+
+
+def _cli_hist_cases(ctx):
+    rng = ctx.rng
+    epws = _EPWS[:3]
+
+    def step(cmd, file, assets='epw', **kw):
+        d = {'cmd': cmd, 'via': rng.choice(['func', 'cli']), 'file': file, 'assets': assets, 'out': rng.choice(['return', 'file'])}
+        d.update(kw)
+        if d['via'] == 'cli' and d['out'] == 'return':
+            d['out'] = 'stdout'
+        return d
+    utf8 = ['chicago.epw', 'tokyo.epw']                  # mannheim.epw holds a latin-1 byte: known finding C12-cli-constant-non-utf8-epw
+    a, b = rng.sample(utf8, 2)
+    # two different EPWs, then the first again after an edit, with a refused call and a stale side file in between
+    yield 'cli_hist', {'steps': [step('wea-to-constant', a, value=rng.choice([0, 700])), step('wea-to-constant', b, value=250),
+                                 step('wea-to-constant', a, edit=rng.randrange(100), value=None)]}
+    yield 'cli_hist', {'steps': [step('wea-to-constant', 'missing.epw', missing=True), step('wea-to-constant', b, stale=True, value=5),
+                                 step('epw-to-wea', b, ap='12/30 to 1/2 between 0 and 23 @1', ts=1),
+                                 step('wea-to-constant', 'chicago.wea', 'wea', value=0)]}
+    for _ in range(ctx.n(0, 5)):
+        steps = []
+        for _ in range(rng.choice([2, 3, 4])):
+            r = rng.random()
+            f = rng.choice(epws)
+            if r < 0.45:
+                f = rng.choice(utf8)
+                steps.append(step('wea-to-constant', f, value=rng.choice([None, 0, 1, 999]), edit=rng.choice([None, None, rng.randrange(100)]),
+                                  stale=rng.random() < 0.25))
+            elif r < 0.55:
+                steps.append(step('wea-to-constant', rng.choice(_WEAS), 'wea', value=rng.choice([None, 0, 3])))
+            elif r < 0.65:
+                steps.append(step('wea-to-constant', 'trunc_' + f, truncate=True, src=f))
+            elif r < 0.7:
+                steps.append(step('wea-to-constant', 'nowhere.epw', missing=True))
+            else:
+                steps.append(step('epw-to-wea', f, ap=rng.choice([None, '6/21 to 6/22 between 8 and 16 @1', '2/27 to 3/1 between 0 and 23 @1']),
+                                  ts=rng.choice([None, 1]), edit=rng.choice([None, rng.randrange(100)])))
+        yield 'cli_hist', {'steps': steps}
+
+
+# --- process-order independence -----------------------------------------------------------------------------
+
+
+def _run_order(order, timeout=300):
+    """Run the cases of `order` one after the other in ONE fresh Python process; -> list of (index, result)."""
+    import subprocess
+    import sys
+    env = dict(os.environ, LADYBUG_REPO=core.REPO)
+    code = ('import sys, json\nsys.path.insert(0, %r)\nfrom harness import core\nsys.path.insert(0, core.REPO)\n'
+            'from harness.props import c12\nc12._order_main()\n' % core.ROOT)
+    return subprocess.Popen([sys.executable, '-c', code], stdin=subprocess.PIPE, stdout=subprocess.PIPE,
+                            stderr=subprocess.DEVNULL, env=env)
+
+
+def _order_main():
+    import sys
+    order = json.loads(sys.stdin.read())
+    out = []
+    real_stdout = sys.stdout
+    sys.stdout = io.StringIO()                           # the library prints notes
+    for i, (op, inp) in enumerate(order):
+        try:
+            res = check_case(op, inp)
+        except Exception as e:
+            res = {'required': 'oracle evaluates', 'observed': 'exception %s: %s' % (type(e).__name__, str(e)[:200]),
+                   'sig': {'exception': type(e).__name__}}
+        if res:
+            out.append([i, json.loads(json.dumps(res, default=str))])
+    sys.stdout = real_stdout
+    sys.stdout.write(json.dumps(out))
+
+
+def _order_result(order, raw):
+    try:
+        fails = json.loads(raw.decode('utf-8', 'replace'))
+    except ValueError:
+        return {'required': 'the cases run in a fresh process', 'observed': 'no result: %s' % raw[-200:],
+                'sig': {'what': 'process order', 'case': 'process died'}}
+    if not fails:
+        return None
+    i, res = fails[0]
+    sig = dict(res.get('sig') or {})
+    sig.update(what='process order', case=order[i][0], position='first' if i == 0 else 'later',
+               inner=str((res.get('sig') or {}).get('what')))
+    return {'required': res.get('required'), 'observed': 'case %d (%s) of the order: %s' % (i, order[i][0], res.get('observed')), 'sig': sig,
+            'index': i}
+
+
+def _check_order(inp):
+    p = _run_order(inp['order'])
+    raw, _ = p.communicate(json.dumps(inp['order']).encode())
+    res = _order_result(inp['order'], raw)
+    if res and 'index' in res and not inp.get('keep_index'):
+        res = dict(res)
+        res.pop('index')
+    return res
+
+
+def _order_pool(ctx):
+    """Cheap cases of every op family; rarity rank first (leap, wrapping, sub-hourly, refused first)."""
+    rng = ctx.rng
+    pool = []
+    for ts, leap, onhour in ((1, True, False), (1, False, False), (1, False, True), (3, True, False), (2, False, False),
+                             (rng.choice([4, 5, 6]), rng.random() < 0.5, False)):
+        pool.append((0 if leap else 2, ('axis', {'ts': ts, 'leap': leap, 'onhour': onhour, 'idx': _axis_indices(rng, ts, leap, 40)})))
+    for leap in (True, False):
+        for ts in (1, rng.choice([2, 3, 4, 6])):
+            stm, std, endm, endd, kind = _rand_period(rng, leap)
+            if len(_period_moys(ts, leap, stm, std, endm, endd)) > 1500:
+                stm, std, endm, endd, kind = 12, 31, 1, 1, 'wrap'
+            rank = (0 if leap else 1) + (0 if kind == 'wrap' else 1) + (0 if ts > 1 else 1)
+            pool.append((rank, (rng.choice(['file_rt', 'dict_rt']), {'kind': 'partial', 'ts': ts, 'leap': leap,
+                                                                      'period': [stm, std, endm, endd], 'mode': 1})))
+            pool.append((rank, ('file_rt', {'kind': 'sparse', 'ts': ts, 'leap': leap, 'moys': _rand_sparse(rng, ts, leap), 'mode': 0})))
+            pool.append((rank, ('daysim', {'ts': rng.choice([2, 3, 4]), 'leap': leap, 'idx': [0, 1, 2, 100]})))
+    pool.append((0, ('file_rt', {'kind': 'partial', 'ts': 1, 'leap': True, 'period': [2, 28, 3, 1], 'mode': 0})))
+    pool.append((3, ('file_rt', {'kind': 'partial', 'ts': 1, 'leap': False, 'period': [2, 28, 3, 1], 'mode': 0})))
+    pool.append((0, ('dict_leap', {'ts': 1, 'moys': [k * 60 for k in range(24 * 60, 24 * 61)]})))
+    k = 0
+    for op, inp in _hist_cases_fixed():
+        if inp['kind'] != 'annual':
+            pool.append((k % 3, (op, inp)))
+            k += 1
+    f = rng.choice(_EPWS[:3])
+    pool.append((2, ('epw', {'file': f, 'ts': 1, 'idx': [0, 1, 8759]})))
+    pool.append((1, ('epw_hist', {'file': f, 'ops': [['to_wea_bad', [10 ** 6]], ['ip'], ['to_wea', [12, 4000]], ['to_wea', None]]})))
+    pool.append((0, ('epw', {'file': rng.choice(['long_beach_2021.epw', 'los_angeles_no_leap_field.epw']), 'ts': 1, 'idx': [0, 1416, 8759]})))
+    a, b = rng.sample(_EPWS[:2], 2)
+    pool.append((1, ('cli_hist', {'steps': [
+        {'cmd': 'wea-to-constant', 'via': 'func', 'file': a, 'assets': 'epw', 'out': 'return', 'value': 3},
+        {'cmd': 'wea-to-constant', 'via': 'func', 'file': b, 'assets': 'epw', 'out': 'return', 'value': 3}]})))
+    for leap in (True, False):
+        pool.append((0 if leap else 2, ('sky', {'model': 'ashrae', 'ts': 2 if leap else 1, 'leap': leap, 'loc': ['B', -33.9, 151.2, 10, 6.0],
+                                                'idx': [0, 1, 3000, 8000], 'clearness': 1})))
+    for _ in range(4):
+        ts = rng.choice([1, 2, 3])
+        leap = rng.random() < 0.5
+        src = {'kind': 'annual', 'ts': ts, 'leap': leap, 'period': [1, 1, 12, 31], 'mode': 0}
+        f = _rand_filter(rng, ts, leap, _moys_of(src), True, True)
+        if f['kind'] == 'sun_up':
+            continue
+        pool.append((0 if leap else 2, ('filter', dict(src, filter=f, then_write=True))))
+    return pool
+
+
+def _hist_cases_fixed():
+    class _C(object):
+        quick = True
+        searching = False
+        rng = random.Random(0)
+
+        def n(self, a, b):
+            return 0
+
+        def count(self, *a):
+            pass
+    return list(_hist_cases(_C()))
+
+
+def _order_start(ctx):
+    """2-4 fresh processes, each with another order of the same pool (rare classes first in the first one)."""
+    rng = ctx.rng
+    pool = _order_pool(ctx)
+    orders = []
+    rare_first = [c for _, c in sorted(pool, key=lambda rc: rc[0])]
+    orders.append(rare_first)
+    orders.append(list(reversed(rare_first)))
+    for _ in range(1 if ctx.quick else 2):
+        o = [c for _, c in pool]
+        rng.shuffle(o)
+        orders.append(o)
+    procs = []
+    for o in orders:
+        o = json.loads(json.dumps(o))
+        p = _run_order(o)
+        p.stdin.write(json.dumps(o).encode())
+        p.stdin.close()
+        procs.append((o, p))
+    return procs
+
+
+def _order_collect(ctx, procs):
+    for o, p in procs:
+        raw = p.stdout.read()
+        p.wait()
+        ctx.count('order:processes')
+        ctx.count('order:cases', len(o))
+        yield o, _order_result(o, raw)
+
+
 replay = check_case
 
 _EPWS = ['chicago.epw', 'tokyo.epw', 'mannheim.epw', 'long_beach_2021.epw', 'los_angeles_no_leap_field.epw']
@@ -1341,6 +2524,12 @@ FIXED_CORPUS = [
                 'filter': {'kind': 'hoys_ap', 'args': [1, 2, 6, 1, 2, 18]}}),
     ('dict_leap', {'ts': 1, 'moys': [k * 60 for k in range(24 * 60, 24 * 61)]}),
     ('cli', {'cmd': 'epw-to-wea', 'assets': 'epw', 'file': 'chicago.epw', 'ap': None, 'ts': 2, 'out': 'stdout'}),
+    # round 3: a discontinuous collection with the same datetimes under a header of 2 steps per hour is accepted by the
+    # setter; the slot `_timestep` stays 1 (known finding)
+    ('hist', _STALE_TS_CASE),
+    # round 3: wea-to-constant opens its input as UTF-8 text to sniff the first word; mannheim.epw holds a latin-1 byte
+    ('cli_hist', {'steps': [{'cmd': 'wea-to-constant', 'via': 'func', 'file': 'mannheim.epw', 'assets': 'epw', 'out': 'return',
+                             'value': 1}]}),
 ]
 
 
@@ -1382,9 +2571,12 @@ def _oracle_cases(ctx):
         for leap in (False, True):
             for onhour in ((False, True) if ts == 1 else (False,)):
                 n = _hours(leap) * ts
-                yield 'axis', {'ts': ts, 'leap': leap, 'onhour': onhour, 'idx': _axis_indices(rng, ts, leap, 300)}
+                inp = {'ts': ts, 'leap': leap, 'onhour': onhour, 'idx': _axis_indices(rng, ts, leap, 300)}
+                if big and ts <= 2:
+                    inp['full'] = True
+                yield 'axis', inp
     # file and dict round trips of directly built Weas
-    for _ in range(ctx.n(140, 3000) * (3 if ctx.searching else 1)):
+    for _ in range(ctx.n(120, 2000) * (3 if ctx.searching else 1)):
         ts = rng.choice([1, 1, 2, 3, 4, 6]) if rng.random() < 0.7 else rng.choice(VALID_TS)
         leap = rng.random() < 0.5
         mode = rng.choice([0, 1])
@@ -1404,6 +2596,12 @@ def _oracle_cases(ctx):
         inp.update(mode=mode, onhour=onhour)
         if loc:
             inp['loc'] = loc
+        if rng.random() < 0.12:
+            inp['imm'] = True
+            ctx.count('rt:immutable_twin')
+        if ts not in (1, 2, 3, 4, 6):
+            ctx.count('rt:unusual_timestep')
+        ctx.count('rt:' + ('leap' if leap else 'plain'))
         yield rng.choice(['file_rt', 'file_rt', 'dict_rt']), inp
     for ts, leap in ([(1, True)] if not big else [(t, l) for t in (1, 2, 3, 4, 6) for l in (False, True)]):
         if big:                                   # quick: the fixed corpus holds the annual leap-year file
@@ -1411,11 +2609,11 @@ def _oracle_cases(ctx):
         yield 'dict_rt', {'kind': 'annual', 'ts': ts, 'leap': leap, 'period': [1, 1, 12, 31], 'mode': 0}
     # filters (source: annual / partial / sparse), some followed by a file round trip
     bases = {}
-    for _ in range(ctx.n(60, 1400) * (3 if ctx.searching else 1)):
+    for _ in range(ctx.n(42, 800) * (3 if ctx.searching else 1)):
         ts = rng.choice([1, 1, 2, 3, 4, 6])
         leap = rng.random() < 0.5
         r = rng.random()
-        if r < 0.3:
+        if r < (0.3 if big else 0.2):
             inp = {'kind': 'annual', 'ts': ts, 'leap': leap, 'period': [1, 1, 12, 31]}
         elif r < 0.8:
             stm, std, endm, endd, kind = _rand_period(rng, leap)
@@ -1427,13 +2625,19 @@ def _oracle_cases(ctx):
         if f['kind'] == 'moys' and inp['kind'] == 'partial':
             f['moys'] = [m for m in f['moys'] if m in set(src)] or [src[0]]   # continuous filter_by_moys indexes: C02 hypothesis
 
-        if f['kind'] == 'sun_up' and len(src) > 9000:
+        if f['kind'] == 'sun_up' and len(src) > (9000 if big else 3000):
             continue
         if f['kind'] == 'period' and inp['kind'] != 'annual':
             # a period filter must lie inside a partial source (C02: subset rule); use the hour window only
             f['args'][0:2] = inp['period'][0:2] if inp['kind'] == 'partial' else [1, 1]
             f['args'][3:5] = inp['period'][2:4] if inp['kind'] == 'partial' else [12, 31]
         inp.update(mode=0, filter=f, then_write=rng.random() < 0.5)
+        if rng.random() < 0.12:
+            inp['imm'] = True
+            ctx.count('filter:immutable_twin')
+        if f['kind'] == 'sun_up' and rng.random() < 0.5:
+            inp['loc'] = rng.choice([['Sydney Obs', -33.87, 151.21, 10, 39.0], ['Quito', -0.18, -78.47, -5, 2850.0]])
+            ctx.count('filter:sun_up_southern_or_equator')
         ctx.count('filter:%s_on_%s' % (f['kind'], inp['kind']))
         yield 'filter', inp
     # filter_by_hoys with the float hours of AnalysisPeriod.hoys on sub-hourly Weas of every timestep
@@ -1509,7 +2713,7 @@ def _oracle_cases(ctx):
     for ts, leap in ([(1, False), (2, True)] if not big else [(1, False), (1, True), (2, False), (4, True)]):
         locv = rng.choice([['A', 41.98, -87.92, -6, 201.0], ['B', -33.9, 151.2, 10, 6.0], ['C', 64.1, -21.9, 0, 50.0]])
         idx = _axis_indices(rng, ts, leap, 60)
-        yield 'sky', {'model': 'ashrae', 'ts': ts, 'leap': leap, 'loc': locv, 'idx': idx, 'clearness': rng.choice([1, 1.1])}
+        yield 'sky', {'model': 'ashrae', 'ts': ts, 'leap': leap, 'loc': locv, 'idx': idx, 'clearness': rng.choice([1, 1.1, 0])}
         yield 'sky', {'model': 'revised', 'ts': ts, 'leap': leap, 'loc': locv, 'idx': idx, 'taub': taub, 'taud': taud}
     for _ in range(2 if not big else 10):
         ts = rng.choice([1, 2])
@@ -1521,11 +2725,36 @@ def _oracle_cases(ctx):
                       'period': [stm, std, endm, endd], 'seed': rng.randrange(10 ** 6), 'idx': [0, 1, 2, 3, 4, 5, 7, 11, 23, 24, 47]}
 
 
+def _all_cases(ctx):
+    for c in _oracle_cases(ctx):
+        yield c
+    for gen in (_hist_cases, _epw_hist_cases, _cli_hist_cases):
+        for c in gen(ctx):
+            yield c
+
+
 def oracle(ctx):
-    run_oracle_cases(ctx, _oracle_cases(ctx), check_case)
+    procs = _order_start(ctx)            # the fresh processes run while this process works through its own stream
+    run_oracle_cases(ctx, _all_cases(ctx), check_case)
+    for order, res in _order_collect(ctx, procs):
+        ctx.count('oracle:order')
+        ctx.case(('order', json.dumps(order, sort_keys=True, default=str)))
+        if res:
+            i = res.pop('index', None)
+            if i is None:
+                ctx.fail('order', {'order': order}, res.get('required'), res.get('observed'), res.get('sig'))
+                continue
+            # shrink: does the case fail on its own in a fresh process?  then the order is not needed
+            alone = _check_order({'order': [order[i]]})
+            if alone:
+                ctx.fail(order[i][0], order[i][1], alone.get('required'), alone.get('observed'),
+                         dict(alone.get('sig') or {}, position='alone'))
+            else:
+                short = {'order': order[:i + 1]}
+                ctx.fail('order', short, res.get('required'), res.get('observed'), res.get('sig'))
 
 
-LEVEL_TEXT = ('Machine-checked Lean 4 theorems (27) over an executable model of wea.py (on top of the C08/C04 models): '
+LEVEL_TEXT = ('Machine-checked Lean 4 theorems (38) over an executable model of wea.py (on top of the C08/C04 models): '
               'entry i of _get_datetimes and step i of every annual Wea are minute 60*i/ts (+30 when hourly and not '
               'on-hour) for all 12 timesteps, normal and leap, and coincide; whole-day partial data (non-wrapping and '
               'wrapping) sits on the closed-form grid from its first hour; write -> read is the identity on the time '
@@ -1541,12 +2770,20 @@ LEVEL_TEXT = ('Machine-checked Lean 4 theorems (27) over an executable model of 
               'header period re-derived); DAYSIM shift (last ts/2 values to the front, a permutation), '
               'to_constant_value (only the last two tokens change, line count kept, short line = IndexError), '
               'count_timesteps; both collections stay aligned, pairwise and at their own time step, under any common '
-              'value-independent index selection.')
+              'value-independent index selection.  One object under any history of setters, refused assignments and reads '
+              '(explicit state machine): a refused operation leaves the object unchanged, reads are pure and can be dropped, '
+              'the object after the history IS the object the constructor builds from the final public state (the slots '
+              '_timestep/_is_leap_year never go stale) provided assigned discontinuous direct-normal collections carry the '
+              'timestep/leap flag of the Wea in their header - refuted without that proviso (known finding: such a collection is '
+              'accepted and the Wea keeps reporting the half hour); after any history both collections carry the same '
+              'datetimes; enforce_on_hour never moves sub-hourly data; EPW.to_wea (annual) writes exactly the lines of '
+              'to_file_string of the Wea made from the same cells.')
 LEVEL_NOTE = ('Trusted: Lean kernel; axioms propext/Classical.choice/Quot.sound only; the correspondence run (agreement '
               'on generated inputs only); CPython string formatting/float parsing modelled at token level (the IEEE '
               'product of the sparse path is checked for all 1440 minutes on every run); collection filters (C02), '
               'validate_analysis_period and interpolation (C13) are parameters; CLI glue, EPW cells, sky-model '
-              'constructors and filter composition are checked by the oracle on the real code only.')
+              'constructors, filter composition, the unit state of EPW objects, the files the CLI translators leave behind '
+              'and the independence of the order of cases within one process are checked by the oracle on the real code only.')
 TECHNIQUE = ('Lean 4 proof (closed form of the whole-day enumeration from the C04 membership/sortedness theorems, '
              'decide +kernel over the 1440 minutes, Rat arithmetic with grind/omega) about a model tied to wea.py by '
              'differential correspondence')
